@@ -18,6 +18,7 @@ Helpers == <<
   [h |-> C3("app", Nil, X, X), b |-> True],
   [h |-> C3("app", Cons(V("H"), V("T")), Y, Cons(V("H"), V("R"))), b |-> C3("app", V("T"), Y, V("R"))],
   [h |-> C2("rev", Nil, Nil), b |-> True],
+  [h |-> C2("big", I(1), ListOf(<<I(0), I(0), I(0), I(0), I(0), I(0), I(0), I(0)>>)), b |-> True],
   [h |-> C2("rev", Cons(V("H"), V("T")), V("R")), b |-> Conj(C2("rev", V("T"), V("RT")), C3("app", V("RT"), ListOf(<<V("H")>>), V("R")))]
 >>
 
@@ -29,7 +30,11 @@ Work == <<
   (* 4 *) Disj(Conj(T1(Y), Conj(C1("assertz", C1("d", Y)), Conj(Log(Y), Fail))), True),
   (* 5 *) Conj(C3("findall", C2("-", X, Y), C3("app", X, Y, ListOf(<<A("a"), A("b")>>)), L), Log(L)),
   (* 6 *) Conj(Ite(Not(T1(I(5))), Log(A("no")), Log(A("yes"))), Conj(C1("once", T1(Y)), Log(Y))),
-  (* 7 *) Conj(C3("findall", Y, C3("catch", Conj(T1(Y), Log(Y)), V("B"), True), L), Conj(C1("retract", C1("d0", V("Z"))), Log(C2("-", L, V("Z")))))
+  (* 7 *) Conj(C3("findall", Y, C3("catch", Conj(T1(Y), Log(Y)), V("B"), True), L), Conj(C1("retract", C1("d0", V("Z"))), Log(C2("-", L, V("Z"))))),
+  (* 8: a suspended goal woken by a head unification that has many instructions left after the binding *)
+  Conj(C2("freeze", X, Log(C1("woke", X))), Conj(C2("big", X, L), Log(L))),
+  (* 9: a suspended goal woken by an inline unification, re-suspended on backtracking *)
+  Disj(Conj(C2("freeze", X, Conj(Log(A("w")), T1(X))), Conj(T1(Y), Conj(Eq(X, Y), Conj(Log(Y), Fail)))), True)
 >>
 
 Query(w) == Conj(C3("catch", Work[w], Catcher, Log(A("caught"))), Log(A("end")))
